@@ -303,9 +303,10 @@ LEVEL_TEXT = (
     "C10_cache_not_carried (deepcopy/pickle, and copy with resolved state methods, never transport the cached value: no known-finding "
     "exclusion needed), C10_shallow_cache_consistent, C10_equal_and_hash_equal (copy == orig; hash(copy) == hash(fresh equal instance); "
     "== hash(orig) unless changed after hashing), C10_protocols (success whenever a __getstate__ resolves or no class has __slots__), "
-    "C10_high_protocols_agree, C10_default_reduction_fails_iff (K11/K10b predicates are exact), C10_K4_exact (exactly the fields the "
+    "C10_high_protocols_agree, C10_default_reduction_fails_iff (K11/K10b predicates are exact), C10_own_pair_unless_opted_out (an attrs class resolves a base's generated pair only with "
+    "getstate_setstate=False), C10_generated_state_never_dropped, C10_inherited_pair_exact (exactly the fields the "
     "base lacks are lost), C10_model_meets_spec (forall c, wf c -> known c = [] -> spec c (model c)), and decide-checked witness theorems "
-    "for K1, K2, K4, K5, K10a, K10b, K10c, K11. Proved about the model; the model is tied to /repo by a differential correspondence over "
+    "for K1, K2, K5, K10b, K11 plus regression theorems for the repaired K4, K10a, K10c. Proved about the model; the model is tied to /repo by a differential correspondence over "
     "chains of <= 3 classes x operations x histories (see rule). Observed, not proved: CPython's object.__reduce_ex__/copyreg/copy/pickle "
     "fragment (modelled as small trusted functions and diff-tested with both picklers), that the result is a distinct object of the same "
     "class, hash collisions between tokens, class creation itself. Not covered: multiple inheritance, make_class/these=, per-field "
